@@ -75,7 +75,7 @@ func runtimeClearAll(flavour string, msg any) {
 }
 
 func runC12(cfg *config, res *monitor.Result) {
-	nseq := 30
+	nseq := 100
 	if cfg.thorough() {
 		nseq = 1500
 	}
